@@ -7,6 +7,8 @@ unit may serve several properties.
 """
 
 U1_WRITE = ["U1.write", "U1.end", "U1.flush", "U1.new"]
+U2 = ("u2_writers", ["U2."])
+U3 = ("u3_resultset", ["U3."])
 
 PROPS = {
     "dev-k4v": {"title": "dev", "kani": [("k4_values", None)], "verus": []},
@@ -23,6 +25,26 @@ PROPS = {
         "title": "Outbound bytes are well-framed, including messages of 16 MiB and more",
         "kani": [],
         "verus": [("u1_packet", U1_WRITE)],
+    },
+    "C08": {
+        "title": "Prepared-statement parameters are decoded to exactly what the client bound",
+        "kani": [("k2_commands", ["k2_parse_stmt"]), ("k3_decode", None)],
+        "verus": [("u4_params", ["U4."])],
+    },
+    "C09": {
+        "title": "Column metadata reaches the client exactly as the shim declared it",
+        "kani": [("k6_deps", ["k6_write_lenenc_int", "k6_write_lenenc_str", "k6_byteorder_le"])],
+        "verus": [U2, U3],
+    },
+    "C13": {
+        "title": "Errors reach the client with the exact code, SQLSTATE and message",
+        "kani": [("k5_errors", None)],
+        "verus": [U2, U3],
+    },
+    "C14": {
+        "title": "Completion counts arrive exactly, including for zero-column resultsets",
+        "kani": [("k6_deps", ["k6_write_lenenc_int", "k6_read_lenenc_int", "k6_byteorder_le"])],
+        "verus": [U2, U3],
     },
     "C15": {
         "title": "Integer results are exact or refused, never silently altered",
